@@ -13,7 +13,7 @@ objects a request touches and what a block-wise GET of a file returns.
   `PurePath.__str__` of CPython 3.12 (pathlib.py:388-419, posixpath.py `join`/`splitroot`); the
   harness compares exactly these against the real `pathlib` on boundary and random strings.
 * `handle`: `Resource.render` dispatch + `render_get`/`render_put`/`render_delete`
-  (fileserver.py:154-323) with the answers of the operating system (`World`) as inputs; the
+  (fileserver.py:159-328; line numbers are those of the fixed tree) with the answers of the operating system (`World`) as inputs; the
   result is the response (code, Block2, payload) and the list of file-system operations in the
   order the code performs them.
 -/
@@ -212,7 +212,7 @@ def Response.isError (r : Response) : Bool :=
 /-- `BlockwiseTuple.size`: `2 ** (min(size_exponent, 6) + 4)` -/
 def blockSize (szx : Nat) : Nat := 2 ^ (min szx 6 + 4)
 
-/-- The slicing of `render_get_file` (fileserver.py:283-323): `seek(num·size)`,
+/-- The slicing of `render_get_file` (fileserver.py:288-328): `seek(num·size)`,
 `read(size + 1)`, `more = len(data) > size`, payload `data[:size]`; Block2 is omitted for an
 unfragmented body. -/
 def sliceBlock (content : Bytes) (block2 : Option (Nat × Nat)) : Response :=
@@ -246,7 +246,7 @@ def joinComma : List Str → Str
   | [a] => a
   | a :: b :: t => a ++ 44 :: joinComma (b :: t)
 
-/-- `render_get` after the path is known (fileserver.py:162-181, 262-323): `stat`, ETag
+/-- `render_get` after the path is known (fileserver.py:166-186, 267-328): `stat`, ETag
 revalidation, then `render_get_dir` or `render_get_file` -/
 def renderGetAt (cfg : Config) (req : Request) (w : World) (p : PPath) : Result :=
   let valid : Result := { resp := { outcome := .code 2 3 }, ops := [.stat p] }
@@ -275,7 +275,7 @@ def renderGetAt (cfg : Config) (req : Request) (w : World) (p : PPath) : Result 
     -- neither directory nor regular file: `response` is never bound (UnboundLocalError)
     else { resp := { outcome := .crash }, ops := [.stat p] }
 
-/-- `render_get` (fileserver.py:154-181) -/
+/-- `render_get` (fileserver.py:159-186) -/
 def renderGet (cfg : Config) (req : Request) (w : World) : Result :=
   if req.path = wellKnownCore then { resp := { outcome := .code 2 5, payload := rootLink } }
   else match requestToLocalPath cfg.root req.path with
@@ -299,7 +299,7 @@ def StatRes.raises : StatRes → Bool
   | .softErr | .hardErr => true
   | _ => false
 
-/-- `render_put` after the path is known (fileserver.py:193-232) -/
+/-- `render_put` after the path is known (fileserver.py:198-237) -/
 def renderPutAt (req : Request) (w : World) (p : PPath) : Result :=
   -- If-None-Match: `path.exists()`
   let ops1 : List FsOp := if req.ifNoneMatch then [.stat p] else []
@@ -325,7 +325,7 @@ def renderPutAt (req : Request) (w : World) (p : PPath) : Result :=
       else
         { resp := { outcome := .code 2 4 }, ops := ops2 ++ [.mkstemp dir, .rename tmp p, .stat p] }
 
-/-- `render_put` (fileserver.py:183-232) -/
+/-- `render_put` (fileserver.py:188-237) -/
 def renderPut (cfg : Config) (req : Request) (w : World) : Result :=
   if !cfg.write then { resp := { outcome := .code 4 3 } }
   else if req.path = [] ∨ trailingEmpty req.path then { resp := { outcome := .code 4 0 } }
@@ -333,7 +333,7 @@ def renderPut (cfg : Config) (req : Request) (w : World) : Result :=
   | .error _ => { resp := { outcome := .code 4 0 } }
   | .ok p => renderPutAt req w p
 
-/-- `render_delete` after the path is known (fileserver.py:244-260) -/
+/-- `render_delete` after the path is known (fileserver.py:249-265) -/
 def renderDeleteAt (req : Request) (w : World) (p : PPath) : Result :=
   let chk := req.ifMatch && !req.ifMatchEmpty
   let ops1 : List FsOp := if chk then [.stat p] else []
@@ -346,7 +346,7 @@ def renderDeleteAt (req : Request) (w : World) (p : PPath) : Result :=
     | .special => { resp := { outcome := .code 2 2 }, ops := ops1 ++ [.unlink p] }
     | _ => { resp := { outcome := .crash }, ops := ops1 ++ [.unlink p] }
 
-/-- `render_delete` (fileserver.py:234-260) -/
+/-- `render_delete` (fileserver.py:239-265) -/
 def renderDelete (cfg : Config) (req : Request) (w : World) : Result :=
   if !cfg.write then { resp := { outcome := .code 4 3 } }
   else if req.path = [] ∨ trailingEmpty req.path then { resp := { outcome := .code 4 0 } }
@@ -363,7 +363,7 @@ def handle (cfg : Config) (req : Request) (w : World) : Result :=
   | .delete => renderDelete cfg req w
   | .other => { resp := { outcome := .code 4 5 } }
 
-/-- `needs_blockwise_assembly` (fileserver.py:130-140): only GETs of non-directory paths do
+/-- `needs_blockwise_assembly` (fileserver.py:135-145): only GETs of non-directory paths do
 their own Block2 handling -/
 def needsBlockwiseAssembly (req : Request) : Bool :=
   if req.method ≠ .get then true
